@@ -10,7 +10,7 @@ CONSTANTS
   Seconds = {"none", "distinct", "dup", "inherited", "blockaddr", "twoaddr"}
   Bad = {0, 1, 2, 3, 4, 5, 6}
   Singles = {"none", "type", "enum", "enumnc", "opaque"}
-  EvalKinds = {"none", "scalar", "ptr", "arr", "struct", "missing", "two"}
+  EvalKinds = {"none", "scalar", "ptr", "arr", "struct", "missing", "two", "readdr"}
   Ptrs = {4, 8}
 INVARIANTS Replay
 CHECK_DEADLOCK FALSE
